@@ -41,6 +41,10 @@ MODELS = {
     # failure, corrects the input and evaluates again
     'raising': dict(cells={'A1': 1, 'B1': '=IF(A1>3,NOSUCHFUNCTION(A1),A1*2)', 'C1': '=B1+1', 'D1': '=A1+C1'},
                     names={'inp': 'Sheet1!$A$1'}, inputs=['A1'], values=[1, 5]),
+    # every kind of node directly over a reference: a sign, a doubled sign, a percent literal beside it, a comparison, a text join, a call
+    'signed': dict(cells={'A1': 3, 'B1': '=-A1', 'B2': '=--A1', 'B3': '=2*-A1', 'B4': '=-A1*50%', 'C1': '=-inp', 'C2': '=A1=3', 'C3': '=A1&"x"',
+                          'D1': '=ABS(-A1)', 'D2': '=-SUM(A1,1)', 'D3': '=-B1'},
+                   names={'inp': 'Sheet1!$A$1'}, inputs=['A1'], values=[5, -2.5]),
     # Q9 holds nothing when the model is built: a cell that receives its first value later
     'late': dict(cells={'A1': 1, 'B1': '=A1+Q9', 'C1': '=B1*2', 'D1': '=IF(ISBLANK(Q9),"none",Q9)'},
                  names={'inp': 'Sheet1!$A$1'}, inputs=['A1'], late=['Q9']),
